@@ -129,18 +129,21 @@ def _process_step_expression(
             # expression, but it proceeds recursively until no target is
             # found and it and it sets the new targets to the entire list
             # of assets identified during the entire transitive recursion.
+            # A visited list keeps this finite on models whose associations
+            # contain cycles or self-links.
             new_target_assets = []
-            for target_asset in target_assets:
-                new_target_assets.extend(model.\
-                    get_associated_assets_by_field_name(target_asset,
-                        step_expression['stepExpression']['name']))
-            if new_target_assets:
-                (additional_assets, _) = _process_step_expression(
-                    lang_graph, model, new_target_assets, step_expression)
-                new_target_assets.extend(additional_assets)
-                return (new_target_assets, None)
-            else:
-                return ([], None)
+            frontier = list(target_assets)
+            while frontier:
+                (step_targets, _) = _process_step_expression(
+                    lang_graph, model, frontier,
+                    step_expression['stepExpression'])
+                frontier = []
+                for step_target in step_targets:
+                    if next((asset for asset in new_target_assets \
+                        if asset.id == step_target.id), None) is None:
+                        new_target_assets.append(step_target)
+                        frontier.append(step_target)
+            return (new_target_assets, None)
 
         case 'subType':
             new_target_assets = []
